@@ -51,6 +51,29 @@ func verifyFunction(w *World, fn *ssa.Function, con *Contract, props []string) (
 	for i, p := range fn.Params {
 		pfc.params[p.Name()] = TV{args[i], p.Type()}
 	}
+	// package invariants (established by the package initialisers, preserved by the frame lemma)
+	isInit := fn.Name() == "init" && fn.Signature.Recv() == nil
+	for _, pp := range sortedKeys(w.CFiles) {
+		cf := w.CFiles[pp]
+		if len(cf.Invariants) == 0 || (isInit && pp == funcPkgPath(fn)) {
+			continue
+		}
+		ifc := &frameCtx{pkgPath: pp, params: map[string]TV{}, env: map[ssa.Value]Val{}, entry: st}
+		for _, inv := range cf.Invariants {
+			x.Sc.Assert(x.evalBool(ifc, st, inv, nil))
+		}
+		x.Assumed["package invariants of "+shortPkg(pp)+" hold at entry (established by init: proved; preserved: frame lemma)"] = true
+	}
+	if isInit {
+		if g, ok := fn.Pkg.Members["init$guard"].(*ssa.Global); ok {
+			gp := x.globalPtr(g).(PtrV)
+			x.Sc.Assert(tNot(tSelect(x.heapGet(st, gp.Key, SArrIB), mkInt(0))))
+		}
+		if cf := w.CFiles[funcPkgPath(fn)]; cf != nil && con == nil {
+			con = &Contract{Key: "init", Pkg: funcPkgPath(fn), Loops: map[int]*LoopSpec{}, File: "package invariants"}
+			con.Ensures = append(con.Ensures, cf.Invariants...)
+		}
+	}
 	if con != nil {
 		for _, r := range con.Requires {
 			x.Sc.Assert(x.evalBool(pfc, st, r, nil))
@@ -171,4 +194,28 @@ func (x *Exec) frameObligations(fc *frameCtx, rs, entry *State, con *Contract, r
 		}
 		x.obligeAt(rs, "frame", site, nil, goal)
 	}
+}
+
+// verifyLemmas turns the `lemma` clauses of a contract file into obligations (pure SMT, no code).
+func verifyLemmas(w *World, pkgPath string, props []string) *FuncReport {
+	cf := w.CFiles[pkgPath]
+	x := &Exec{W: w, Sc: NewScript(shortPkg(pkgPath) + ".lemmas"), Props: props, Prefix: shortPkg(pkgPath) + ".lemma",
+		init: map[string]*Term{}, siteCnt: map[string]int{}, Assumed: map[string]bool{}, Inlined: map[string]bool{}, Callees: map[string]bool{}}
+	rep := &FuncReport{Name: x.Prefix, Pkg: pkgPath, Key: "lemmas", Script: x.Sc}
+	defer func() {
+		if r := recover(); r != nil {
+			if o, ok := r.(OutOfSubset); ok {
+				rep.OutOfSub = o.Msg
+				return
+			}
+			panic(r)
+		}
+	}()
+	st := &State{Guard: tTrue, Heap: map[string]*Term{}, Alloc: x.allocInit()}
+	fc := &frameCtx{pkgPath: pkgPath, params: map[string]TV{}, env: map[ssa.Value]Val{}, entry: st}
+	for _, l := range cf.Lemmas {
+		t := x.evalBool(fc, st, l.Expr, nil)
+		x.Sc.AddObligation(&Obligation{Name: x.Prefix + "/" + l.Name, Class: "lemma", Props: props, Goal: t, Site: l.Expr.String()})
+	}
+	return rep
 }
